@@ -180,6 +180,12 @@ type SecureChannel struct {
 	openingInstance *channelInstance
 	openingMu       sync.Mutex
 
+	// recvSeq is the sequence number of the last chunk accepted by readChunk,
+	// recvSeqSet is false until the first chunk was accepted. Both are only
+	// touched by the goroutine that calls Receive.
+	recvSeq    uint32
+	recvSeqSet bool
+
 	// errorCh receive dispatcher errors
 	errch chan<- error
 
@@ -573,7 +579,32 @@ func (s *SecureChannel) readChunk() (*MessageChunk, error) {
 	}
 	m.Data = m.Data[n:]
 
+	if err := s.checkSequenceNumber(m.SequenceHeader.SequenceNumber); err != nil {
+		return nil, err
+	}
+
 	return m, nil
+}
+
+// checkSequenceNumber rejects a verified chunk whose sequence number does not
+// come after the one of the previously accepted chunk, i.e. a chunk that was
+// replayed or re-ordered on the wire.
+//
+// The sender increments the number for every chunk it sends on the channel,
+// independent of the security token in use, and wraps it around before it
+// reaches MaxUint32-1024 to a value below 1024 (OPC UA Part 6, 6.7.2.4). Gaps
+// are tolerated since a sender may drop a numbered chunk before writing it.
+func (s *SecureChannel) checkSequenceNumber(n uint32) error {
+	const wrapAfter = math.MaxUint32 - 1024
+
+	if s.recvSeqSet && n <= s.recvSeq {
+		wrapped := s.recvSeq >= wrapAfter && n < 1024
+		if !wrapped {
+			return ua.StatusBadSequenceNumberInvalid
+		}
+	}
+	s.recvSeq, s.recvSeqSet = n, true
+	return nil
 }
 
 // verifyAndDecrypt verifies and optionally decrypts a message. if `instance` is given, then it will only use that
